@@ -867,3 +867,21 @@ v("c06-wrapper-closes-the-iterable", "C06", "CLOSE-WHAT-YOU-ADVANCE", E + "execu
   "                aclose = getattr(iterator, \"aclose\", None)\n", "                aclose = getattr(iterable, \"aclose\", None)\n")
 v("c06-cleanup-settles-only-with-live-producer", "C06", "CLEANUP-SETTLES", E + "incremental/stream_item_queue.py",
   "            await gather(producer_task, return_exceptions=True)\n        await self._settle_pending()\n        on_abort = self._on_abort\n", "            await gather(producer_task, return_exceptions=True)\n            await self._settle_pending()\n        on_abort = self._on_abort\n")
+
+# -- round 5: C03 ------------------------------------------------------------------------------------------
+v("c03-awaited-falsy-leaf-becomes-null", "C03", "NULL-BY-IDENTITY", E + "executor.py",
+  "            resolved = await self.with_abort_signal(result)\n", "            resolved = await self.with_abort_signal(result)\n            if not resolved and is_leaf_type(return_type):\n                return None\n")
+
+# -- round 5: C18 ------------------------------------------------------------------------------------------
+v("c18-depth-rule-counts-enum-values", "C18", "DEPTH-LISTS", V + "rules/max_introspection_depth_rule.py",
+  "            \"possibleTypes\",\n            \"inputFields\",\n", "            \"possibleTypes\",\n            \"enumValues\",\n            \"inputFields\",\n")
+v("c18-deprecation-check-symmetric", "C18", "DEPRECATION-DIRECTION", T + "validate.py",
+  "            if (\n                type_field.deprecation_reason is not None\n                and iface_field.deprecation_reason is None\n            ):\n",
+  "            if (type_field.deprecation_reason is None) != (iface_field.deprecation_reason is None):\n")
+v("c18-deprecation-check-named-flags", "C18", "DEPRECATION-DIRECTION", T + "validate.py",
+  "            if (\n                type_field.deprecation_reason is not None\n                and iface_field.deprecation_reason is None\n            ):\n",
+  "            field_deprecated = type_field.deprecation_reason is not None\n            iface_deprecated = iface_field.deprecation_reason is not None\n            if field_deprecated and not iface_deprecated:\n",
+  expect="silent")
+v("c18-type-lookup-falls-back-to-builtins", "C18", "TYPE-LOOKUP", T + "introspection.py",
+  "        return info.schema.get_type(args[\"name\"])\n", "        return info.schema.get_type(args[\"name\"]) or specified_scalar_types.get(args[\"name\"])\n",
+  extra_edits=[{"file": T + "introspection.py", "old": "from .scalars import GraphQLBoolean, GraphQLString\n", "new": "from .scalars import GraphQLBoolean, GraphQLString, specified_scalar_types\n"}])
